@@ -136,6 +136,12 @@ type SpyF struct{ *Spy }
 
 func (s SpyF) Flush() { s.flush() }
 
+// FlushError is what net/http's own response offers to http.ResponseController next to Flush.
+func (s SpyF) FlushError() error   { s.flush(); return nil }
+func (s SpyFR) FlushError() error  { s.flush(); return nil }
+func (s SpyFH) FlushError() error  { s.flush(); return nil }
+func (s SpyFRH) FlushError() error { s.flush(); return nil }
+
 // Writer returns the http.ResponseWriter facet the request asked for.
 func (s *Spy) Writer(flusher bool) http.ResponseWriter {
 	if flusher {
